@@ -38,6 +38,9 @@ func Generate(r *rand.Rand, profile string) *Scenario {
 	if profile == "flat" {
 		return generateFlat(r)
 	}
+	if profile == "ext" {
+		return generateExt(r)
+	}
 	if profile == "bindfail" || profile == "overhead" || profile == "nested" || profile == "sharers" {
 		return generateTight(r, profile)
 	}
@@ -1080,6 +1083,101 @@ func generateFlat(r *rand.Rand) *Scenario {
 	// pending jobs
 	for i := 0; i < pick(1, 2, 3, 4); i++ {
 		add(leaves[r.Intn(len(leaves))], pick(1, 1, 1, 2, 3, 3), pick(50, 50, 75), 0)
+	}
+	sc.Normalize()
+	return sc
+}
+
+
+// generateExt: nodes offering MIG instances (nvidia.com/mig-*) and another extended resource, pods
+// requesting one or two instances, running pods within capacity, pending demand above it, unlimited queues
+// (the instances, not the queues, are the scarce thing), injected bind failures, 1-3 cycles.
+func generateExt(r *rand.Rand) *Scenario {
+	pick := func(vs ...int) int { return vs[r.Intn(len(vs))] }
+	sc := &Scenario{Class: "ext"}
+	sc.Cfg = Cfg{Placement: []string{"binpack", "spread"}[r.Intn(2)], Consolidation: pick(0, 1), Signatures: pick(0, 1),
+		ConsReclaim: 0, SatMult: 1000, Cycles: pick(1, 2, 3), Env: []string{"closed", "stall"}[r.Intn(2)], FullHier: 1}
+	if r.Intn(4) == 0 {
+		sc.Cfg.BindFail = []int{1 + r.Intn(3)}
+	}
+	names := []string{"nvidia.com/mig-1g.5gb", "nvidia.com/mig-2g.10gb", "example.com/fpga"}
+	nn := pick(1, 2, 2, 3)
+	free := make([]map[string]int, nn)
+	for i := 0; i < nn; i++ {
+		n := Node{Name: fmt.Sprintf("n%d", i+1), Cpu: 16000, Mem: 64000, Pods: 110, Gpus: 0, GpuMem: 40000, Ready: 1, Ext: map[string]int{}}
+		if r.Intn(4) > 0 {
+			n.Ext[names[0]] = pick(1, 2, 3, 4)
+			if r.Intn(2) == 0 {
+				n.Ext[names[1]] = pick(1, 2)
+			}
+		}
+		if r.Intn(3) == 0 {
+			n.Ext[names[2]] = pick(1, 2)
+		}
+		free[i] = map[string]int{}
+		for k, v := range n.Ext {
+			free[i][k] = v
+		}
+		sc.Nodes = append(sc.Nodes, n)
+	}
+	sc.Queues = []Queue{{Name: "d1", Parent: 0, Prio: 100, GQ: -1, GL: -1, GW: 1, CQ: -1, CL: -1, MQ: -1, ML: -1},
+		{Name: "q1", Parent: 1, Prio: 100, GQ: -1, GL: -1, GW: 1, CQ: -1, CL: -1, MQ: -1, ML: -1},
+		{Name: "q2", Parent: 1, Prio: 100, GQ: -1, GL: -1, GW: 1, CQ: -1, CL: -1, MQ: -1, ML: -1}}
+	nj := pick(3, 4, 5, 6, 7)
+	for j := 0; j < nj; j++ {
+		size := pick(1, 1, 2)
+		min := 1 + r.Intn(size)
+		ext := map[string]int{names[pick(0, 0, 1, 2)]: pick(1, 1, 2)}
+		if r.Intn(5) == 0 {
+			ext[names[2]] = 1
+		}
+		sc.Jobs = append(sc.Jobs, Job{Name: fmt.Sprintf("j%d", j+1), Queue: 2 + r.Intn(2), Prio: pick(50, 75), Preempt: 1, Min: min, Age: 600 + 60*r.Intn(40), LastStart: -1})
+		run := r.Intn(3) == 0
+		var idx []int
+		for k := 0; k < size; k++ {
+			e := map[string]int{}
+			for a, b := range ext {
+				e[a] = b
+			}
+			sc.Pods = append(sc.Pods, Pod{Name: fmt.Sprintf("j%d-p%d", j+1, k+1), Job: j + 1, Cpu: 500, Mem: 500, Phase: "P", Ext: e})
+			idx = append(idx, len(sc.Pods)-1)
+		}
+		if run {
+			placed := 0
+			for _, pi := range idx {
+				for _, ni := range r.Perm(nn) {
+					ok := true
+					for a, b := range sc.Pods[pi].Ext {
+						if free[ni][a] < b {
+							ok = false
+						}
+					}
+					if ok {
+						for a, b := range sc.Pods[pi].Ext {
+							free[ni][a] -= b
+						}
+						sc.Pods[pi].Phase, sc.Pods[pi].Node = "R", ni+1
+						placed++
+						break
+					}
+				}
+			}
+			if placed < size {
+				for _, pi := range idx {
+					if sc.Pods[pi].Phase == "R" {
+						for a, b := range sc.Pods[pi].Ext {
+							free[sc.Pods[pi].Node-1][a] += b
+						}
+						sc.Pods[pi].Phase, sc.Pods[pi].Node = "P", 0
+					}
+				}
+			} else {
+				sc.Jobs[j].LastStart = 3600
+				if r.Intn(4) == 0 {
+					sc.Pods[idx[0]].Term = 1
+				}
+			}
+		}
 	}
 	sc.Normalize()
 	return sc
